@@ -87,6 +87,14 @@ def case_batches(ctx, tag, big=True):
     gen_rnd_board, larger boards (implementation + independent predicates only; the unary-nat model is slow)."""
     os.makedirs(SCRATCH, exist_ok=True)
     yield [("exh", with_probs(b, k), True) for k, b in enumerate(exhaustive_boards(SHAPES_QUICK))]
+    # rewards need not be whole numbers (a hand board may price a tile at 0.5): every 7th board again with 3 -> 1.5, 0 -> 0.25
+    frac = []
+    for k, b in enumerate(exhaustive_boards(SHAPES_QUICK)):
+        if k % 7 == 3 and b["L"] * b["W"] >= 2:
+            c = with_probs(b, k)
+            c = dict(c, rewards=[[1.5 if x else 0.25 for x in row] for row in c["rewards"]])
+            frac.append(("frac", c, True))
+    yield frac
     rj = random_board_jobs(ctx, 60 if ctx.quick else 300, 3 if ctx.quick else 5)
     batch = []
     for c in boards_from_generator(rj, tag):
